@@ -18,7 +18,8 @@ CONFIGS = {
     "C02": {"quick": ["GenG1_syms_q.cfg"], "thorough": ["GenG1_syms_t.cfg", "GenG1_syms_arm64.cfg"]},
     "C04": {"quick": ["GenG1_ann_q.cfg", "GenG1_cfi_q.cfg"], "thorough": ["GenG1_ann_t.cfg", "GenG1_cfi_t.cfg"]},
     "C06": {"quick": ["GenG1_fn_q.cfg"], "thorough": ["GenG1_fn_t.cfg"]},
-    "C03": {"quick": ["GenG1_cfg_q.cfg"], "thorough": ["GenG1_cfg_t.cfg", "GenG1_cfg_arm64.cfg"]},
+    "C03": {"quick": ["GenG1_cfg_q.cfg", "GenG1_calls_q.cfg"],
+            "thorough": ["GenG1_cfg_t.cfg", "GenG1_cfg_arm64.cfg", "GenG1_calls_q.cfg"]},
     "C08": {"quick": ["GenG1_cfi_q.cfg"], "thorough": ["GenG1_cfi_t.cfg"]},
     "C09": {"quick": ["GenG1_batch_q.cfg"], "thorough": ["GenG1_batch_t.cfg", "GenG1_cfg_q.cfg"]},
     "C05": {"quick": ["GenG1_syms_q.cfg", "GenG1_cfg_q.cfg", "GenG1_align_q.cfg"],
@@ -208,21 +209,29 @@ def run(prop: str, tier: str, replay: str = None) -> int:
                 out.write(json.dumps(rec["case"]) + "\n")
             n = 1
         else:
-            allc = os.path.join(wd, "all.ndjson")
-            with open(allc, "w") as agg:
-                for cfg in CONFIGS[prop][tier]:
+            # every generation config gets an equal share of the sample, so that a small
+            # dedicated space is not crowded out by a large one
+            cfgs = CONFIGS[prop][tier]
+            total = SAMPLE[tier] // (2 if prop == "C05" else 1)
+            n = 0
+            with open(cases, "w") as agg:
+                for ci, cfg in enumerate(cfgs):
                     part = os.path.join(wd, "part.ndjson")
                     res = tlc.generate("GenG1.tla", cfg, "CASE", part,
                                        timeout=2400 if tier == "thorough" else 900)
                     res["ok"] = True
                     rep.add_mc(cfg, res)
-                    with open(part) as f:
-                        for line in f:
-                            agg.write(line)
                     rep.extra.setdefault("generated_cases", 0)
                     rep.extra["generated_cases"] += res["emitted"]
-            n = sample_cases(allc, cases, SAMPLE[tier] // (2 if prop == "C05" else 1), rng, prop)
-            os.remove(allc)
+                    picked = os.path.join(wd, "picked.ndjson")
+                    quota = total // len(cfgs) + (total % len(cfgs) if ci == 0 else 0)
+                    k = sample_cases(part, picked, quota, rng, f"{prop}-{ci}" if ci else prop)
+                    with open(picked) as f:
+                        for line in f:
+                            agg.write(line)
+                    n += k
+                    os.remove(part)
+                    os.remove(picked)
             if prop == "C05":
                 n = expand_faults(cases, rng)
                 rep.level = "fault_enumeration"
